@@ -559,7 +559,7 @@ func (a *raw) apply(m Mut, x **raw) bool {
 		}
 		v := ends[k]
 		if m.K == "end" {
-			if k == len(ends)-1 || a.T == mgeom.MPt || st == 0 {
+			if k == len(ends)-1 || st == 0 {
 				return false
 			}
 			steps := (next - prev) / st
@@ -794,6 +794,12 @@ func (prop) Execute(scAny any, phase string, log *core.Log) core.Result {
 		var px *raw
 		n := 0
 		for _, mut := range s.Pre {
+			if mut.K == "end" && rawG.T == mgeom.MPt {
+				// before the clone a MultiPoint keeps at most one coordinate
+				// per point: the clone-time oracle looks at it through the
+				// public accessors, which assume that
+				continue
+			}
 			if !rawG.apply(mut, &px) {
 				continue
 			}
